@@ -114,14 +114,26 @@ impl Simd {
             let mut imp = vec![T::of64(0.0); len + 1];
             for k in 0..len {
                 imp[k] = T::of64(1.0);
-                taps[k] = ks[0].1.get_sinc_interpolated(&imp, 0, s).f64();
+                taps[k] = match crate::mon::guarded(|| ks[0].1.get_sinc_interpolated(&imp, 0, s).f64()) {
+                    Ok(v) => v,
+                    Err(p) => {
+                        cr.viols.push(Viol::new("C15", "kernel_panics_on_valid_call", format!("{} kernel: L={} N={} index=0 subindex={} on a slice of {} samples (index + L < len): panicked: {}", ks[0].0, len, n, s, imp.len(), p)));
+                        break 'subs;
+                    }
+                };
                 imp[k] = T::of64(0.0);
             }
             // every kernel must hold the same taps
             for (name, k) in ks.iter().skip(1) {
                 for kk in [0usize, len / 2, len - 1, rng.ui(0, len - 1)] {
                     imp[kk] = T::of64(1.0);
-                    let t = k.get_sinc_interpolated(&imp, 0, s).f64();
+                    let t = match crate::mon::guarded(|| k.get_sinc_interpolated(&imp, 0, s).f64()) {
+                        Ok(v) => v,
+                        Err(p) => {
+                            cr.viols.push(Viol::new("C15", "kernel_panics_on_valid_call", format!("{} kernel: L={} N={} index=0 subindex={} on a slice of {} samples (index + L < len), where the scalar kernel returned a value: panicked: {}", name, len, n, s, imp.len(), p)));
+                            break 'subs;
+                        }
+                    };
                     imp[kk] = T::of64(0.0);
                     if t != taps[kk] {
                         cr.viols.push(Viol::new("C15", "taps_differ", format!("{} kernel, subindex {}, tap {}: {:e} vs scalar {:e}", name, s, kk, t, taps[kk])));
@@ -147,7 +159,13 @@ impl Simd {
                 let bound = (len as f64 / 8.0 + 8.0) * T::EPS * abs + (len as f64 + 8.0) * if T::IS32 { 1.5e-45 } else { 5e-324 };
                 let mut results = Vec::new();
                 for (name, k) in &ks {
-                    let v = k.get_sinc_interpolated(wave, index, s).f64();
+                    let v = match crate::mon::guarded(|| k.get_sinc_interpolated(wave, index, s).f64()) {
+                        Ok(v) => v,
+                        Err(p) => {
+                            cr.viols.push(Viol::new("C15", "kernel_panics_on_valid_call", format!("{} kernel: L={} N={} index={} subindex={} on a slice of {} samples (the highest legal index: index + L = len - 1): panicked: {}", name, len, n, index, s, wave.len(), p)));
+                            break 'subs;
+                        }
+                    };
                     evals += 1;
                     if v.is_nan() {
                         cr.viols.push(Viol::new("C15", "reads_outside_window", format!("{} kernel returned NaN with NaN only outside [index, index+{}): L={} N={} index={} subindex={} slice offset {}", name, len, len, n, index, s, off)));
@@ -231,8 +249,26 @@ impl Simd {
         // sum|taps| <= ~3 for these windows; value bound for a whole interpolated output frame
         let k_bound = 8.0 * (len as f64 / 8.0 + 8.0) * T::EPS * 4.0;
         'ops: for (i, op) in ops.iter().enumerate() {
-            let outs: Vec<StepOut<T>> = runs.iter_mut().map(|r| r.step(op)).collect();
-            let sd = disp.step(op);
+            // a kernel that panics on a call another kernel completes breaks the "same stream whichever kernel" clause
+            let tried: Vec<Result<StepOut<T>, String>> = runs.iter_mut().map(|r| crate::mon::guarded(|| r.step(op))).collect();
+            let n_panicked = tried.iter().filter(|t| t.is_err()).count();
+            if n_panicked > 0 {
+                if n_panicked < tried.len() {
+                    let k = tried.iter().position(|t| t.is_err()).unwrap();
+                    cr.viols.push(Viol::new("C15", "kernel_panics_where_another_completes", format!("op {} ({}): the resampler built on the {} kernel panicked ({}), {} other kernel(s) completed the same call", i, op.json().dump(), names[k], tried[k].as_ref().err().unwrap(), tried.len() - n_panicked)));
+                } else {
+                    cr.inconclusive = Some(format!("every kernel panicked (C03): {}", tried[0].as_ref().err().unwrap()));
+                }
+                break 'ops;
+            }
+            let outs: Vec<StepOut<T>> = tried.into_iter().map(|t| t.unwrap()).collect();
+            let sd = match crate::mon::guarded(|| disp.step(op)) {
+                Ok(x) => x,
+                Err(p) => {
+                    cr.viols.push(Viol::new("C15", "dispatch_not_transparent", format!("op {} ({}): SincFixed*::new panicked ({}), the explicitly built kernels completed the same call", i, op.json().dump(), p)));
+                    break 'ops;
+                }
+            };
             st.add("compared_steps", 1.0);
             for (k, so) in outs.iter().enumerate().skip(1) {
                 if so.res != outs[0].res || so.after != outs[0].after {
